@@ -246,15 +246,78 @@ def rebind_members(facts, pin):
     return facts, rep
 
 
+def rebind_types(facts, pin):
+    """A struct / enum missing by name whose module has exactly one new ADT of the same shape is a
+    renamed type: the new name is replaced by the pinned one in every string of the facts (paths,
+    type strings), consistently for definitions and uses."""
+    padts = pin.get("adts") or {}
+    cur = {}
+    for crate, f in facts.items():
+        for a in f["adts"]:
+            cur[strip_generics(a["path"])] = a
+    missing = [m for m in padts if m not in cur and m.split("::")[0] in facts]
+    new = [n for n in cur if n not in padts]
+    if not missing or not new:
+        return facts, []
+    ren = {}
+    for m in sorted(missing):
+        mod, old_name = m.rsplit("::", 1)
+        cands = []
+        for n in new:
+            nmod, new_name = n.rsplit("::", 1)
+            if nmod != mod or new_name in ren:
+                continue
+            a, o = cur[n], padts[m]
+            if a["kind"] != o["kind"] or len(a["variants"]) != len(o["variants"]):
+                continue
+            same = True
+            for av, ov in zip(a["variants"], o["variants"]):
+                if a["kind"] == "Enum" and av["name"] != ov["name"]:
+                    same = False
+                if len(av["fields"]) != len(ov["fields"]):
+                    same = False
+                    break
+                for af, of in zip(av["fields"], ov["fields"]):
+                    if af["name"] != of[0] or re.sub(r"(?<![\w])%s(?![\w])" % re.escape(new_name), old_name, af["ty"]) != of[1]:
+                        same = False
+            if same:
+                cands.append(new_name)
+        if len(cands) == 1:
+            ren[cands[0]] = old_name
+    if not ren:
+        return facts, []
+    # the new names must not collide with identifiers the pin already knows
+    known_idents = set()
+    for k in list(padts) + list(pin.get("functions") or []):
+        known_idents.update(k.split("::"))
+    ren = {n: o for n, o in ren.items() if n not in known_idents}
+    if not ren:
+        return facts, []
+    pat = re.compile(r"(?<![\w])(%s)(?![\w])" % "|".join(re.escape(n) for n in ren))
+
+    def fix(o):
+        if isinstance(o, str):
+            return pat.sub(lambda mm: ren[mm.group(1)], o) if any(n in o for n in ren) else o
+        if isinstance(o, list):
+            return [fix(x) for x in o]
+        if isinstance(o, dict):
+            return {k: fix(v) for k, v in o.items()}
+        return o
+
+    facts = {crate: fix(f) for crate, f in facts.items()}
+    return facts, [{"renamed_type": n, "bound_to": o} for n, o in sorted(ren.items())]
+
+
 def normalise(facts):
     """facts -> (facts', report) : re-bind renamed items, then splice new helpers."""
     from inline import inline_new_helpers
 
     pin = load_pin()
     report = {"rebound": [], "inlined": []}
+    facts, r0 = rebind_types(facts, pin)
     facts, r1 = rebind_members(facts, pin)
     facts, r2 = rebind_functions(facts, pin)
-    report["rebound"] = r1 + r2
+    report["rebound"] = r0 + r1 + r2
     facts, r3 = inline_new_helpers(facts, set(pin["functions"]))
     report["inlined"] = r3
     return facts, report
